@@ -208,7 +208,7 @@ func genBody(t *rapid.T, nm *namer, depth int, allowDyn bool, top bool) BodyS {
 var strPool = []string{
 	"", "a", "hello world", "x\ny\n", "tab\there", "quo\"te", "back\\slash", "${not.interp}", "%{not a directive}",
 	"50% off", "cost: $5", "$", "%", "ünï-ködé ✓", "multi\nline\ntext\n", "  padded  ", "#not-a-comment", "/*x*/", "//y",
-	"a${", "end$", "{}", "[1,2]", "null", "true", "12", "EOT", "it.value", "\r\n", "\x7f",
+	"a${", "end$", "{}", "$${lit}", "%%{lit}", "$$${x}", "$$", "%%", "[1,2]", "null", "true", "12", "EOT", "it.value", "\r\n", "\x7f",
 }
 
 func genStr(t *rapid.T) string {
@@ -216,40 +216,7 @@ func genStr(t *rapid.T) string {
 		return rapid.SampledFrom(strPool).Draw(t, "str")
 	}
 	rs := rapid.SliceOfN(rapid.SampledFrom([]rune{'a', 'B', '0', ' ', '$', '%', '{', '}', '"', '\\', '\n', '\t', 'é', '✓', '#', '/', '*', '=', ',', '~'}), 0, 8).Draw(t, "runes")
-	s := string(rs)
-	return SanitizeStr(s)
-}
-
-// SanitizeStr removes the two spellings whose escaping in templates is not pinned
-// down by the in-tree documentation ("$${" and "%%{" as literal text).
-func SanitizeStr(s string) string {
-	for {
-		n := len(s)
-		s = replaceAll(s, "$${", "$ ${")
-		s = replaceAll(s, "%%{", "% %{")
-		if len(s) == n {
-			return s
-		}
-	}
-}
-
-func replaceAll(s, old, new string) string {
-	for {
-		i := indexOf(s, old)
-		if i < 0 {
-			return s
-		}
-		s = s[:i] + new + s[i+len(old):]
-	}
-}
-
-func indexOf(s, sub string) int {
-	for i := 0; i+len(sub) <= len(s); i++ {
-		if s[i:i+len(sub)] == sub {
-			return i
-		}
-	}
-	return -1
+	return string(rs)
 }
 
 var intPool = []string{"0", "1", "-1", "42", "8080", "65535", "-2147483648", "9007199254740993", "9223372036854775807", "-9223372036854775808", "100"}
